@@ -254,3 +254,470 @@ Proof.
     change (is_zero F) with false. change (go_isinf F 0) with false. cbn [negb orb andb].
     destruct (is_integral F), (- 2 ^ 53 <=? tz F), (tz F <=? 2 ^ 53); reflexivity.
 Qed.
+
+(* ------------------------------------------------------------------------------------------ *)
+(* float64(i) is a well-formed float for every int64 i (SpecFloat's rounding, followed through) *)
+
+Lemma shr_1_m : forall mrs, 0 <= shr_m mrs -> shr_m (shr_1 mrs) = shr_m mrs / 2.
+Proof.
+  intros [m r s] H. simpl in H. destruct m as [|[p|p|]|p]; try (exfalso; lia).
+  - reflexivity.
+  - simpl. rewrite Pos2Z.inj_xI. apply Z.div_unique with 1; lia.
+  - simpl. rewrite Pos2Z.inj_xO. apply Z.div_unique with 0; lia.
+  - reflexivity.
+Qed.
+
+Lemma iter_shr_m : forall n mrs, 0 <= shr_m mrs ->
+  shr_m (iter_pos shr_1 n mrs) = shr_m mrs / 2 ^ Z.pos n.
+Proof.
+  induction n as [n IH|n IH|]; intros mrs H; cbn [iter_pos].
+  - assert (H1 : 0 <= shr_m (shr_1 mrs)) by (rewrite shr_1_m by exact H; apply Z.div_pos; lia).
+    assert (H2 : 0 <= shr_m (iter_pos shr_1 n (shr_1 mrs))).
+    { rewrite IH by exact H1. apply Z.div_pos; [exact H1 | apply pow2_pos; lia]. }
+    rewrite IH by exact H2. rewrite IH by exact H1. rewrite shr_1_m by exact H.
+    pose proof (pow2_pos (Z.pos n) ltac:(lia)) as P.
+    rewrite !Z.div_div by lia. f_equal.
+    replace (Z.pos n~1) with (1 + Z.pos n + Z.pos n) by lia. rewrite !Z.pow_add_r by lia. change (2 ^ 1) with 2. ring.
+  - assert (H2 : 0 <= shr_m (iter_pos shr_1 n mrs)).
+    { rewrite IH by exact H. apply Z.div_pos; [exact H | apply pow2_pos; lia]. }
+    rewrite IH by exact H2. rewrite IH by exact H.
+    pose proof (pow2_pos (Z.pos n) ltac:(lia)) as P.
+    rewrite !Z.div_div by lia. f_equal.
+    replace (Z.pos n~0) with (Z.pos n + Z.pos n) by lia. rewrite !Z.pow_add_r by lia. ring.
+  - rewrite shr_1_m by exact H. reflexivity.
+Qed.
+
+Lemma rne_range : forall q l, round_nearest_even q l = q \/ round_nearest_even q l = q + 1.
+Proof. intros q [|[| |]]; simpl; auto. destruct (Z.even q); auto. Qed.
+
+Lemma digits_of_range : forall x k, 0 < k -> 2 ^ (k - 1) <= Z.pos x < 2 ^ k -> Z.pos (digits2_pos x) = k.
+Proof.
+  intros x k K [L U]. destruct (digits_bound x) as [DU DL]. set (d := Z.pos (digits2_pos x)) in *.
+  assert (0 < d) by (unfold d; lia).
+  destruct (Z.lt_trichotomy d k) as [Lt|[Eq|Gt]]; auto; exfalso.
+  - assert (2 ^ d <= 2 ^ (k - 1)) by (apply Z.pow_le_mono_r; lia). lia.
+  - assert (2 ^ k <= 2 ^ (d - 1)) by (apply Z.pow_le_mono_r; lia). lia.
+Qed.
+
+(* float64(i) for 2^53 <= |i| < 2^64: a well-formed float (the rounding keeps 53 digits) *)
+Lemma big_int_round : forall s p, 2 ^ 53 <= Z.pos p < 2 ^ 64 ->
+  valid (binary_round prec64 emax64 s p 0) = true.
+Proof.
+  intros s p [L U]. destruct (digits_bound p) as [DU DL]. set (d := Z.pos (digits2_pos p)) in *.
+  assert (D1 : 54 <= d).
+  { destruct (Z_le_gt_dec 54 d); auto. exfalso. assert (2 ^ d <= 2 ^ 53) by (apply Z.pow_le_mono_r; lia). lia. }
+  assert (D2 : d <= 64).
+  { destruct (Z_le_gt_dec d 64); auto. exfalso. assert (2 ^ 64 <= 2 ^ (d - 1)) by (apply Z.pow_le_mono_r; lia). lia. }
+  unfold binary_round. fold d.
+  assert (FE : fexp prec64 emax64 (d + 0) = d - 53) by (unfold fexp, emin, prec64, emax64; lia).
+  rewrite FE. unfold shl_align. destruct (d - 53 - 0) as [|n|n] eqn:N; try lia.
+  unfold binary_round_aux, shr_fexp. unfold Zdigits2 at 1. fold d. rewrite FE.
+  replace (d - 53 - 0) with (Z.pos n) by lia. unfold shr at 1.
+  set (mrs := iter_pos shr_1 n (shr_record_of_loc (Z.pos p) loc_Exact)).
+  assert (Q : shr_m mrs = Z.pos p / 2 ^ Z.pos n) by (unfold mrs; rewrite iter_shr_m; simpl; [reflexivity | lia]).
+  pose proof (pow2_pos (Z.pos n) ltac:(lia)) as PN.
+  assert (QL : 2 ^ 52 <= shr_m mrs).
+  { rewrite Q. apply Z.div_le_lower_bound; [lia|]. rewrite <- Z.pow_add_r by lia.
+    replace (Z.pos n + 52) with (d - 1) by lia. exact DL. }
+  assert (QU : shr_m mrs < 2 ^ 53).
+  { rewrite Q. apply Z.div_lt_upper_bound; [lia|]. rewrite <- Z.pow_add_r by lia.
+    replace (Z.pos n + 53) with d by lia. exact DU. }
+  set (m1 := round_nearest_even (shr_m mrs) (loc_of_shr_record mrs)).
+  assert (M1 : 2 ^ 52 <= m1 <= 2 ^ 53) by (unfold m1; destruct (rne_range (shr_m mrs) (loc_of_shr_record mrs)) as [->| ->]; lia).
+  destruct m1 as [|m1p|m1p] eqn:EM; try lia.
+  assert (CASE : Z.pos m1p < 2 ^ 53 \/ Z.pos m1p = 2 ^ 53) by lia. destruct CASE as [LT|EQ].
+  - assert (DG : Z.pos (digits2_pos m1p) = 53) by (apply digits_of_range; [lia | change (53 - 1) with 52; lia]).
+    unfold Zdigits2. rewrite DG.
+    assert (FE2 : fexp prec64 emax64 (53 + (0 + Z.pos n)) - (0 + Z.pos n) = 0) by (unfold fexp, emin, prec64, emax64; lia).
+    rewrite FE2. cbn [shr shr_record_of_loc shr_m].
+    replace (0 + Z.pos n <=? emax64 - prec64) with true by (symmetry; apply Z.leb_le; unfold emax64, prec64; lia).
+    unfold valid, valid_binary, bounded. apply andb_true_intro. split.
+    + unfold canonical_mantissa. rewrite DG. apply Zeq_is_eq_bool. unfold fexp, emin, prec64, emax64. lia.
+    + apply Z.leb_le. unfold emax64, prec64; lia.
+  - assert (m1p = 9007199254740992%positive) by (change (2 ^ 53) with (Z.pos 9007199254740992) in EQ; congruence).
+    subst m1p. cbn [Zdigits2 digits2_pos Pos.succ].
+    replace (fexp prec64 emax64 (54 + (0 + Z.pos n)) - (0 + Z.pos n)) with 1 by (unfold fexp, emin, prec64, emax64; lia).
+    cbn [shr iter_pos shr_record_of_loc shr_1 shr_m orb].
+    replace (0 + Z.pos n + 1 <=? emax64 - prec64) with true by (symmetry; apply Z.leb_le; unfold emax64, prec64; lia).
+    unfold valid, valid_binary, bounded. apply andb_true_intro. split.
+    + unfold canonical_mantissa. cbn [digits2_pos Pos.succ]. apply Zeq_is_eq_bool. unfold fexp, emin, prec64, emax64. lia.
+    + apply Z.leb_le. unfold emax64, prec64; lia.
+Qed.
+
+Lemma of_Z_int64_valid : forall z, - 2 ^ 63 <= z <= 2 ^ 63 -> valid (of_Z z) = true.
+Proof.
+  intros z H. destruct (Z_le_gt_dec (Z.abs z) two53) as [S|B].
+  - apply of_Z_safe_valid. exact S.
+  - unfold two53 in B. change (2 ^ 63) with 9223372036854775808 in H.
+    destruct z as [|p|p]; try (simpl in B; lia).
+    + apply (big_int_round false p). change (2 ^ 53) with 9007199254740992. change (2 ^ 64) with 18446744073709551616. lia.
+    + apply (big_int_round true p). change (2 ^ 53) with 9007199254740992. change (2 ^ 64) with 18446744073709551616. lia.
+Qed.
+
+(* ------------------------------------------------------------------------------------------ *)
+(* math.Mod(f, 2^32) on large integral floats *)
+
+(* exactness of the rounding of p * 2^e0 when p has at most 53 digits (no underflow / overflow) *)
+Lemma round_exact_gen : forall s p e0, Z.pos p < 2 ^ 53 -> -1021 <= e0 <= 900 ->
+  exists m e, binary_round prec64 emax64 s p e0 = S754_finite s m e /\ e <= e0 /\
+              Z.pos m = Z.pos p * 2 ^ (e0 - e) /\ valid (S754_finite s m e) = true.
+Proof.
+  intros s p e0 H E0. unfold binary_round.
+  destruct (digits_bound p) as [DU DL].
+  set (d := Z.pos (digits2_pos p)) in *.
+  assert (Dle : d <= 53).
+  { destruct (Z_le_gt_dec d 53) as [|G]; auto. exfalso.
+    assert (2 ^ 53 <= 2 ^ (d - 1)) by (apply Z.pow_le_mono_r; lia). lia. }
+  assert (Dpos : 0 < d) by (unfold d; lia).
+  assert (FE : fexp prec64 emax64 (d + e0) = d + e0 - 53).
+  { unfold fexp, emin, prec64, emax64. lia. }
+  rewrite FE. unfold shl_align.
+  destruct (d + e0 - 53 - e0) eqn:K; try lia.
+  - assert (D53 : d = 53) by lia.
+    exists p, e0. split.
+    + apply round_aux_exact.
+      * unfold canonical_mantissa. fold d. rewrite D53. apply Zeq_is_eq_bool. unfold fexp, emin, prec64, emax64. lia.
+      * apply Z.leb_le. unfold emax64, prec64. lia.
+    + split; [lia|]. split; [rewrite Z.sub_diag; simpl; lia|].
+      unfold valid, valid_binary, bounded. apply andb_true_intro. split.
+      * unfold canonical_mantissa. fold d. rewrite D53. apply Zeq_is_eq_bool. unfold fexp, emin, prec64, emax64. lia.
+      * apply Z.leb_le. unfold emax64, prec64. lia.
+  - assert (Kv : Z.pos p0 = 53 - d) by lia.
+    assert (DS : Z.pos (digits2_pos (shift_pos p0 p)) = 53).
+    { rewrite (digits_mul_pow2 p (Z.pos p0) ltac:(lia) (shift_pos p0 p) (shift_pos_val p0 p)). fold d. lia. }
+    assert (CM : canonical_mantissa prec64 emax64 (shift_pos p0 p) (d + e0 - 53) = true).
+    { unfold canonical_mantissa. rewrite DS. unfold fexp, emin, prec64, emax64.
+      apply Zeq_is_eq_bool. lia. }
+    assert (EB : (d + e0 - 53 <=? emax64 - prec64) = true) by (apply Z.leb_le; unfold emax64, prec64; lia).
+    exists (shift_pos p0 p), (d + e0 - 53). split.
+    + apply round_aux_exact; auto.
+    + split; [lia|]. split.
+      * rewrite shift_pos_val. f_equal. f_equal. lia.
+      * unfold valid, valid_binary, bounded. rewrite CM. exact EB.
+Qed.
+
+Definition c32 : f64 := S754_finite false 4503599627370496 (-20).   (* 2^32 *)
+
+Lemma go_int64_small_exact : forall s m e q, e < 0 -> Z.pos m / 2 ^ (- e) = q -> 0 <= q < 2 ^ 32 ->
+  go_int64_of_float (S754_finite s m e) = if s then - q else q.
+Proof.
+  intros s m e q E Q B. unfold go_int64_of_float, trunc_Z.
+  replace (0 <=? e) with false by (symmetry; apply Z.leb_gt; lia). rewrite Q.
+  change (2 ^ 32) with 4294967296 in B.
+  destruct s.
+  - replace (-9223372036854775808 <=? - q) with true by (symmetry; apply Z.leb_le; lia).
+    replace (- q <? 9223372036854775808) with true by (symmetry; apply Z.ltb_lt; lia). reflexivity.
+  - replace (-9223372036854775808 <=? q) with true by (symmetry; apply Z.leb_le; lia).
+    replace (q <? 9223372036854775808) with true by (symmetry; apply Z.ltb_lt; lia). reflexivity.
+Qed.
+
+(* int64(math.Mod(f, 2^32)) for an integral f with exponent >= 11 is the truncated remainder of f modulo 2^32 *)
+Lemma mod32_big : forall s m e, 11 <= e ->
+  go_int64_of_float (go_mod (S754_finite s m e) c32) = Z.rem (tz (S754_finite s m e)) (2 ^ 32).
+Proof.
+  intros s m e E. unfold go_mod, c32. rewrite Z.min_r by lia. cbv zeta.
+  change (-20 - -20) with 0. change (2 ^ 0) with 1. rewrite Z.mul_1_r.
+  set (K := Z.pos m * 2 ^ e).
+  assert (KP : 0 < K) by (unfold K; apply Z.mul_pos_pos; [lia | apply pow2_pos; lia]).
+  assert (A : Z.pos m * 2 ^ (e - -20) = K * 2 ^ 20).
+  { unfold K. replace (e - -20) with (e + 20) by lia. rewrite Z.pow_add_r by lia. ring. }
+  rewrite A. change (Z.pos 4503599627370496) with (2 ^ 32 * 2 ^ 20).
+  rewrite Z.mul_mod_distr_r by (apply Z.pow_nonzero; lia).
+  set (q := K mod 2 ^ 32).
+  assert (QB : 0 <= q < 2 ^ 32) by (apply Z.mod_pos_bound; apply pow2_pos; lia).
+  assert (TZ : tz (S754_finite s m e) = if s then - K else K).
+  { unfold tz, trunc_Z. replace (0 <=? e) with true by (symmetry; apply Z.leb_le; lia). reflexivity. }
+  assert (REM : Z.rem (tz (S754_finite s m e)) (2 ^ 32) = if s then - q else q).
+  { rewrite TZ. destruct s.
+    - rewrite Z.rem_opp_l by (apply Z.pow_nonzero; lia). rewrite Z.rem_mod_nonneg by (try apply pow2_pos; lia). reflexivity.
+    - rewrite Z.rem_mod_nonneg by (try apply pow2_pos; lia). reflexivity. }
+  rewrite REM.
+  destruct (q * 2 ^ 20 =? 0) eqn:R0.
+  - apply Z.eqb_eq in R0. assert (q = 0) by (change (2 ^ 20) with 1048576 in R0; lia).
+    replace q with 0 by lia. destruct s; reflexivity.
+  - apply Z.eqb_neq in R0. assert (QP : 0 < q) by (change (2 ^ 20) with 1048576 in R0; lia).
+    assert (RP : 0 < q * 2 ^ 20) by (change (2 ^ 20) with 1048576; lia).
+    destruct (q * 2 ^ 20) as [|rp|rp] eqn:RR; try lia.
+    assert (RB : Z.pos rp < 2 ^ 53).
+    { rewrite <- RR. change (2 ^ 53) with (2 ^ 33 * 2 ^ 20). apply Z.mul_lt_mono_pos_r; [apply pow2_pos; lia|].
+      change (2 ^ 33) with 8589934592. change (2 ^ 32) with 4294967296 in QB. lia. }
+    assert (BN : binary_normalize prec64 emax64 (if s then - Z.pos rp else Z.pos rp) (-20) s = binary_round prec64 emax64 s rp (-20))
+      by (destruct s; reflexivity).
+    rewrite BN.
+    destruct (round_exact_gen s rp (-20) RB ltac:(lia)) as [m' [e' [BR [EL [MV _]]]]].
+    rewrite BR. apply go_int64_small_exact; [lia | | exact QB].
+    rewrite MV, <- RR.
+    replace (2 ^ (- e')) with (2 ^ 20 * 2 ^ (-20 - e')) by (rewrite <- Z.pow_add_r by lia; f_equal; lia).
+    rewrite Z.div_mul_cancel_r by (apply Z.pow_nonzero; lia).
+    apply Z.div_mul. apply Z.pow_nonzero; lia.
+Qed.
+
+(* ------------------------------------------------------------------------------------------ *)
+(* runtime.go floatToInt64Mod32 *)
+
+Lemma big_exp : forall s m e, valid (S754_finite s m e) = true -> 2 ^ 63 <= Z.abs (tz (S754_finite s m e)) -> 11 <= e.
+Proof.
+  intros s m e V B. destruct (valid_finite_bounds _ _ _ V) as [Hm _].
+  destruct (Z_le_gt_dec 11 e) as [|G]; auto. exfalso.
+  assert (A : Z.abs (tz (S754_finite s m e)) = tz (S754_finite false m e)).
+  { pose proof (tz_finite_pos m e). destruct s; [rewrite tz_finite_neg|]; lia. }
+  rewrite A in B. unfold tz, trunc_Z in B. destruct (0 <=? e) eqn:E.
+  - apply Z.leb_le in E.
+    assert (Z.pos m * 2 ^ e < 2 ^ 53 * 2 ^ e) by (apply Z.mul_lt_mono_pos_r; [apply pow2_pos; lia | exact Hm]).
+    assert (2 ^ 53 * 2 ^ e <= 2 ^ 63) by (rewrite <- Z.pow_add_r by lia; apply Z.pow_le_mono_r; lia). lia.
+  - apply Z.leb_gt in E. pose proof (tz_abs_bound false m e E) as T. unfold tz, trunc_Z in T.
+    replace (0 <=? e) with false in T by (symmetry; apply Z.leb_gt; lia).
+    assert (2 ^ 53 < 2 ^ 63) by reflexivity. lia.
+Qed.
+
+Lemma floatToInt64Mod32_gen_tie : forall f, valid f = true ->
+  floatToInt64Mod32_gen f = Model.floatToInt64Mod32 f.
+Proof.
+  intros f V. unfold floatToInt64Mod32_gen, Model.floatToInt64Mod32.
+  destruct f as [s|s| |s m e].
+  - destruct s; reflexivity.
+  - destruct s; reflexivity.
+  - reflexivity.
+  - set (F := S754_finite s m e) in *.
+    rewrite c_two63, c_mtwo63.
+    rewrite (flt_pow2 F 63 V eq_refl ltac:(lia)), (fge_mpow2 F 63 V eq_refl ltac:(lia)).
+    rewrite (tz_some F eq_refl). change (2 ^ 63) with two63.
+    destruct ((- two63 <=? tz F) && (tz F <? two63)) eqn:C.
+    + unfold go_int64_of_float. rewrite (tz_some F eq_refl).
+      change (-9223372036854775808) with (- two63). change 9223372036854775808 with two63. rewrite C. reflexivity.
+    + change (go_float_of_int 4294967296) with c32. unfold F. rewrite mod32_big; [reflexivity|].
+      apply (big_exp s m e V). fold F.
+      apply andb_false_iff in C. unfold two63 in C. change (2 ^ 63) with 9223372036854775808.
+      destruct C as [C|C]; [apply Z.leb_gt in C | apply Z.ltb_ge in C]; lia.
+Qed.
+
+(* ------------------------------------------------------------------------------------------ *)
+(* vm.go intToValue / floatToValue (one recursion group) *)
+
+Lemma wrap64_spec : forall z, in_int64 (GoSem.wrapS 64 z) /\ exists k, GoSem.wrapS 64 z = z + k * 18446744073709551616.
+Proof.
+  intro z. unfold GoSem.wrapS, in_int64.
+  change (2 ^ (64 - 1)) with 9223372036854775808. change (2 ^ 64) with 18446744073709551616.
+  pose proof (Z.mod_pos_bound (z + 9223372036854775808) 18446744073709551616 ltac:(lia)) as B.
+  split; [lia|].
+  exists (- ((z + 9223372036854775808) / 18446744073709551616)).
+  pose proof (Z.div_mod (z + 9223372036854775808) 18446744073709551616 ltac:(lia)). lia.
+Qed.
+
+Lemma in_range_int64 : forall i, int_in_range i = true -> in_int64 i /\ - two53 <= i <= two53.
+Proof.
+  intros i R. unfold int_in_range in R. apply andb_prop in R. destruct R as [A B].
+  apply Z.leb_le in A. apply Z.leb_le in B. unfold in_int64. unfold two53 in *. lia.
+Qed.
+
+Lemma intToValue_body_in_range : forall rf ri i, int_in_range i = true -> intToValue_body rf ri i = NInt i.
+Proof.
+  intros rf ri i R. destruct (in_range_int64 i R) as [I B]. unfold two53 in B.
+  unfold intToValue_body, intCache_elem. cbv zeta.
+  rewrite (wrap64_in (256 + i)) by (unfold in_int64 in *; lia).
+  destruct ((0 <=? 256 + i) && (256 + i <? 256)) eqn:C.
+  - apply andb_prop in C. destruct C as [C1 C2]. apply Z.leb_le in C1. apply Z.ltb_lt in C2.
+    rewrite wrap64_in by (unfold in_int64; lia). f_equal. lia.
+  - change ((-9007199254740992 <=? i) && (i <=? 9007199254740992)) with (int_in_range i). rewrite R. reflexivity.
+Qed.
+
+Lemma intToValue_bounds_ok : forall rf ri i, intToValue_bounds rf ri i = true.
+Proof.
+  intros rf ri i. unfold intToValue_bounds. cbv zeta.
+  destruct ((0 <=? GoSem.wrapS 64 (256 + i)) && (GoSem.wrapS 64 (256 + i) <? 256)); reflexivity.
+Qed.
+
+Lemma floatToInt_some_range : forall f k, Model.floatToInt f = Some k -> int_in_range k = true.
+Proof.
+  intros f k H. unfold Model.floatToInt in H. destruct (int_like f) eqn:IL; [|discriminate].
+  destruct (int_like_trunc f IL) as [k' [T B]]. rewrite (go_int64_small f k' T B) in H.
+  inversion H; subst k'. unfold int_in_range. apply andb_true_intro. split; apply Z.leb_le; lia.
+Qed.
+
+Lemma floatToValue_body_tie : forall rf ri f, valid f = true ->
+  (forall i, int_in_range i = true -> ri i = NInt i) ->
+  floatToValue_body rf ri f = Model.floatToValue f.
+Proof.
+  intros rf ri f V H. unfold floatToValue_body. rewrite (floatToInt_gen_tie f V).
+  unfold Model.floatToValue. destruct (Model.floatToInt f) as [k|] eqn:FI.
+  - pose proof (floatToInt_some_range f k FI) as R. rewrite R. cbn iota beta. apply H. exact R.
+  - cbn iota beta. unfold Model.floatToInt in FI.
+    destruct f as [s|s| |s m e].
+    + destruct s; [reflexivity | discriminate FI].
+    + destruct s; reflexivity.
+    + reflexivity.
+    + change (go_float_of_int 0) with (S754_zero false). unfold go_feq. rewrite feqb_zero_r. reflexivity.
+Qed.
+
+Lemma intToValue_body_tie : forall rf ri i, in_int64 i ->
+  (forall f, valid f = true -> rf f = Model.floatToValue f) ->
+  intToValue_body rf ri i = Model.intToValue i.
+Proof.
+  intros rf ri i I H. unfold Model.intToValue. destruct (int_in_range i) eqn:R.
+  - apply intToValue_body_in_range. exact R.
+  - unfold intToValue_body. cbv zeta.
+    destruct (wrap64_spec (256 + i)) as [W [k WK]].
+    destruct ((0 <=? GoSem.wrapS 64 (256 + i)) && (GoSem.wrapS 64 (256 + i) <? 256)) eqn:C.
+    + exfalso. apply andb_prop in C. destruct C as [C1 C2]. apply Z.leb_le in C1. apply Z.ltb_lt in C2.
+      unfold int_in_range, two53 in R. apply andb_false_iff in R. unfold in_int64 in I.
+      destruct R as [R|R]; [apply Z.leb_gt in R | apply Z.leb_gt in R]; lia.
+    + change ((-9007199254740992 <=? i) && (i <=? 9007199254740992)) with (int_in_range i). rewrite R.
+      apply H. apply of_Z_int64_valid. unfold in_int64 in I. change (2 ^ 63) with 9223372036854775808. lia.
+Qed.
+
+Lemma unroll_tie : forall n b1 b2,
+  (forall f, valid f = true -> fst (floatToValue_intToValue_unroll (3 + n) b1 b2) f = Model.floatToValue f) /\
+  (forall i, in_int64 i -> snd (floatToValue_intToValue_unroll (3 + n) b1 b2) i = Model.intToValue i).
+Proof.
+  intros n b1 b2.
+  assert (P1 : forall k i, int_in_range i = true -> snd (floatToValue_intToValue_unroll (S k) b1 b2) i = NInt i).
+  { intros k i R. cbn [floatToValue_intToValue_unroll snd]. apply intToValue_body_in_range. exact R. }
+  assert (P2 : forall k f, valid f = true -> fst (floatToValue_intToValue_unroll (S (S k)) b1 b2) f = Model.floatToValue f).
+  { intros k f V. cbn [floatToValue_intToValue_unroll fst]. apply floatToValue_body_tie; [exact V | apply P1]. }
+  split.
+  - intros f V. apply (P2 (S n)). exact V.
+  - intros i I. change (3 + n)%nat with (S (S (S n))). cbn [floatToValue_intToValue_unroll snd].
+    apply intToValue_body_tie; [exact I | apply P2].
+Qed.
+
+(* the closed definitions do not depend on the depth-0 functions, and equal the model *)
+Theorem floatToValue_gen_tie : forall f, valid f = true -> floatToValue_gen f = Model.floatToValue f.
+Proof. intros f V. unfold floatToValue_gen. apply (proj1 (unroll_tie 1 _ _)). exact V. Qed.
+Theorem intToValue_gen_tie : forall i, in_int64 i -> intToValue_gen i = Model.intToValue i.
+Proof. intros i I. unfold intToValue_gen. apply (proj2 (unroll_tie 1 _ _)). exact I. Qed.
+
+(* ------------------------------------------------------------------------------------------ *)
+(* runtime.go toInt8 ... toUint32: the model's toIntN *)
+
+Lemma finite_cond : forall f, negb (go_isnan f) && negb (go_isinf f 0) = is_finite f.
+Proof. intros [s|s| |s m e]; reflexivity. Qed.
+
+Ltac toIntN_tac :=
+  intros a W; destruct a as [i|f]; cbv zeta beta; cbn [Model.toIntN];
+  [ reflexivity
+  | simpl in W; rewrite finite_cond; rewrite (floatToInt64Mod32_gen_tie f W); reflexivity ].
+
+Theorem toInt8_gen_tie : forall a, wf a = true -> toInt8_gen a = Model.toIntN true 8 a.
+Proof. unfold toInt8_gen. toIntN_tac. Qed.
+Theorem toUint8_gen_tie : forall a, wf a = true -> toUint8_gen a = Model.toIntN false 8 a.
+Proof. unfold toUint8_gen. toIntN_tac. Qed.
+Theorem toInt16_gen_tie : forall a, wf a = true -> toInt16_gen a = Model.toIntN true 16 a.
+Proof. unfold toInt16_gen. toIntN_tac. Qed.
+Theorem toUint16_gen_tie : forall a, wf a = true -> toUint16_gen a = Model.toIntN false 16 a.
+Proof. unfold toUint16_gen. toIntN_tac. Qed.
+Theorem toInt32_gen_tie : forall a, wf a = true -> toInt32_gen a = Model.toInt32 a.
+Proof. unfold toInt32_gen, Model.toInt32. toIntN_tac. Qed.
+Theorem toUint32_gen_tie : forall a, wf a = true -> toUint32_gen a = Model.toUint32 a.
+Proof. unfold toUint32_gen, Model.toUint32. toIntN_tac. Qed.
+
+(* toInt64 / toUint64 have no counterpart in the model: reference definitions *)
+Definition toInt64_ref (a : jsnum) : Z :=
+  match a with NInt i => i | NFlt f => if is_finite f then go_int64 f else 0 end.
+Definition toUint64_ref (a : jsnum) : Z := Model.wrapU 64 (toInt64_ref a).
+
+Theorem toInt64_gen_tie : forall a, toInt64_gen a = toInt64_ref a.
+Proof. intros [i|f]; unfold toInt64_gen; cbv zeta beta; [reflexivity | rewrite finite_cond; reflexivity]. Qed.
+Theorem toUint64_gen_tie : forall a, toUint64_gen a = toUint64_ref a.
+Proof.
+  intros [i|f]; unfold toUint64_gen, toUint64_ref; cbv zeta beta; [reflexivity|].
+  rewrite finite_cond. cbn [toInt64_ref]. destruct (is_finite f); reflexivity.
+Qed.
+
+(* ------------------------------------------------------------------------------------------ *)
+(* runtime.go toUint8Clamp *)
+
+Lemma land_1_odd : forall r, negb (Z.land r 1 =? 0) = Z.odd r.
+Proof.
+  intro r. change 1 with (Z.ones 1). rewrite Z.land_ones by lia. change (2 ^ 1) with 2.
+  rewrite Zmod_odd. destruct (Z.odd r); reflexivity.
+Qed.
+
+Theorem toUint8Clamp_gen_tie : forall a, toUint8Clamp_gen a = Model.toUint8Clamp a.
+Proof.
+  intros [i|num]; unfold toUint8Clamp_gen, Model.toUint8Clamp; cbv zeta beta.
+  - destruct (Z.ltb_spec i 0); [reflexivity|]. destruct (Z.leb_spec i 255); [|reflexivity].
+    unfold to_uint8, GoSem.wrapU. change (2 ^ 8) with 256. apply Z.mod_small. lia.
+  - rewrite land_1_odd. unfold go_isnan. destruct (is_nan num); cbn [negb]; reflexivity.
+Qed.
+
+(* ------------------------------------------------------------------------------------------ *)
+(* value.go floatToIntClip, ToInteger; runtime.go toLength *)
+
+Theorem floatToIntClip_gen_tie : forall n, floatToIntClip_gen n = Model.floatToIntClip n.
+Proof. intro n. reflexivity. Qed.
+
+Theorem Value_ToInteger_gen_tie : forall a, Value_ToInteger_gen a = Model.toInteger a.
+Proof. intros [i|f]; reflexivity. Qed.
+
+Theorem toLength_gen_tie : forall a, toLength_gen a = Model.toLength a.
+Proof.
+  intro a. unfold toLength_gen, Model.toLength. cbv zeta. rewrite Value_ToInteger_gen_tie.
+  destruct (Model.toInteger a <? 0); reflexivity.
+Qed.
+
+(* ------------------------------------------------------------------------------------------ *)
+(* builtin_array.go relToIdx, array.go toIdx, runtime.go toIntStrict / toIntClamp (64-bit int): no counterpart in
+   the model; tied to their plain specification *)
+
+Theorem relToIdx_gen_spec : forall rel l, in_int64 rel -> 0 <= l <= two53 ->
+  relToIdx_gen rel l = (if 0 <=? rel then Z.min rel l else Z.max (l + rel) 0) /\
+  0 <= relToIdx_gen rel l <= l.
+Proof.
+  intros rel l R L. unfold relToIdx_gen, go_min, go_max, in_int64, two53 in *.
+  destruct (Z.leb_spec 0 rel).
+  - split; [reflexivity | lia].
+  - rewrite wrap64_in by (unfold in_int64; lia). split; [reflexivity | lia].
+Qed.
+
+Theorem toIdx_gen_spec : forall v, toIdx_gen v = (if (0 <=? v) && (v <? 4294967295) then v else 4294967295) /\
+  0 <= toIdx_gen v <= 4294967295.
+Proof.
+  intro v. unfold toIdx_gen. destruct (Z.leb_spec 0 v); destruct (Z.ltb_spec v 4294967295); cbn [andb]; try (split; [reflexivity | lia]).
+  unfold to_uint32, GoSem.wrapU. change (2 ^ 32) with 4294967296. rewrite Z.mod_small by lia. split; [reflexivity | lia].
+Qed.
+
+Theorem toIntStrict_gen_id : forall i, toIntStrict_gen i = i.
+Proof. reflexivity. Qed.
+Theorem toIntClamp_gen_id : forall i, toIntClamp_gen i = i.
+Proof. reflexivity. Qed.
+
+(* ------------------------------------------------------------------------------------------ *)
+(* transfer: the C05 theorems hold of the code as translated *)
+
+Corollary floatToValue_gen_canon : forall f, valid f = true -> canon (floatToValue_gen f) = true.
+Proof. intros f V. rewrite floatToValue_gen_tie by exact V. apply Proofs2.floatToValue_canon. Qed.
+Corollary floatToValue_gen_eq_canon_of : forall f, valid f = true -> floatToValue_gen f = canon_of f.
+Proof. intros f V. rewrite floatToValue_gen_tie by exact V. apply Proofs2.floatToValue_eq_canon_of. Qed.
+Corollary intToValue_gen_canon : forall i, in_int64 i -> canon (intToValue_gen i) = true.
+Proof. intros i I. rewrite intToValue_gen_tie by exact I. apply Proofs2.intToValue_canon. Qed.
+Corollary toInt32_gen_eq_spec : forall a, canon a = true -> wf a = true -> toInt32_gen a = ToInt32_spec (val a).
+Proof. intros a C W. rewrite toInt32_gen_tie by exact W. apply Proofs4.toInt32_eq_spec. exact C. Qed.
+Corollary toUint32_gen_eq_spec : forall a, canon a = true -> wf a = true -> toUint32_gen a = ToUint32_spec (val a).
+Proof. intros a C W. rewrite toUint32_gen_tie by exact W. apply Proofs4.toUint32_eq_spec. exact C. Qed.
+Corollary toInt8_gen_eq_spec : forall a, canon a = true -> wf a = true -> toInt8_gen a = spec_modulo 8 true (val a).
+Proof. intros a C W. rewrite toInt8_gen_tie by exact W. apply Proofs4.toIntN_eq_spec; [lia | exact C]. Qed.
+Corollary toUint8_gen_eq_spec : forall a, canon a = true -> wf a = true -> toUint8_gen a = spec_modulo 8 false (val a).
+Proof. intros a C W. rewrite toUint8_gen_tie by exact W. apply Proofs4.toIntN_eq_spec; [lia | exact C]. Qed.
+Corollary toInt16_gen_eq_spec : forall a, canon a = true -> wf a = true -> toInt16_gen a = spec_modulo 16 true (val a).
+Proof. intros a C W. rewrite toInt16_gen_tie by exact W. apply Proofs4.toIntN_eq_spec; [lia | exact C]. Qed.
+Corollary toUint16_gen_eq_spec : forall a, canon a = true -> wf a = true -> toUint16_gen a = spec_modulo 16 false (val a).
+Proof. intros a C W. rewrite toUint16_gen_tie by exact W. apply Proofs4.toIntN_eq_spec; [lia | exact C]. Qed.
+
+(* non-vacuity: the generated code computes (vm_compute), on both sides of each boundary *)
+Example leaf_gen_examples :
+  intToValue_gen 9007199254740992 = NInt 9007199254740992 /\
+  intToValue_gen 9007199254740993 = NInt 9007199254740992 /\ intToValue_gen 9007199254740995 = NFlt (of_Z 9007199254740996) /\
+  intToValue_gen (-1) = NInt (-1) /\
+  floatToValue_gen (of_Z 6) = NInt 6 /\ floatToValue_gen fnegzero = NFlt fnegzero /\
+  floatToValue_gen (of_Z_scaled 5 (-1)) = NFlt (of_Z_scaled 5 (-1)) /\
+  toInt32_gen (NFlt (of_Z_scaled 1 63)) = 0 /\ toInt32_gen (NFlt (of_Z (2 ^ 64 + 2 ^ 12))) = 4096 /\
+  toUint8Clamp_gen (NFlt (of_Z_scaled 5 (-1))) = 2 /\ toUint8Clamp_gen (NFlt (of_Z_scaled 7 (-1))) = 4 /\
+  toLength_gen (NFlt (finf false)) = 9007199254740991 /\
+  relToIdx_gen (-3) 8 = 5 /\ toIdx_gen 4294967295 = 4294967295 /\ LeafGen.untranslated = nil.
+Proof. vm_compute. repeat split; reflexivity. Qed.
+
+(* math.Trunc as GoSem defines it agrees with the model's ftrunc where the latter is cheap to evaluate *)
+Example go_trunc_examples :
+  map go_trunc (of_Z_scaled 5 (-1) :: of_Z_scaled (-5) (-1) :: of_Z_scaled (-1) (-1) :: of_Z (2 ^ 60) :: fnegzero :: finf true :: fnan :: nil) =
+  map ftrunc (of_Z_scaled 5 (-1) :: of_Z_scaled (-5) (-1) :: of_Z_scaled (-1) (-1) :: of_Z (2 ^ 60) :: fnegzero :: finf true :: fnan :: nil).
+Proof. vm_compute. reflexivity. Qed.
